@@ -1,6 +1,7 @@
 import GBProofs.Props.C03
 import GBProofs.CoulombGeneral
 import GBProofs.PointChargeBlock
+import GBProofs.BoysSeries
 /-!
 # C03 — analytic anchor
 `CoulombGeneral.coulomb_general`: for two primitive Cartesian Gaussians of arbitrary angular momenta
@@ -26,5 +27,12 @@ theorem point_charge_block_is_coulomb_integral (boysT : ℝ → ℕ → Tab ℝ)
     (pointChargeBlock boysT s t Cpt q).get4 ma ca mb cb
       = -q * ∫ r : E3, shellFnE s ma ca r * shellFnE t mb cb r / ‖r - toE3 Cpt‖ :=
   pointChargeBlock_eq_integral boysT hboys s t Cpt q ma ca mb cb hs ht ha hb
+
+/-- `BoysSeries.lean`: the formulas by which the compiled model evaluates the Boys function are exact identities
+(`boys_partial_sum`, `boys_downward_step`, `boys_upward_step`), the truncated series it sums at the top order (1201 terms,
+`T ≤ 200`) is within `10⁻⁴¹⁶` of the Boys integral (`boys_model_top`), and its starting value for `T > 200` is within
+`e⁻²⁰⁰/400` (`boys_zero_asymptotic_model`); what is left to the numerical validation is the 320-bit rounding only. -/
+alias boys_series_truncation := boys_model_top
+alias boys_large_argument_start := boys_zero_asymptotic_model
 
 end GB.C03
